@@ -319,6 +319,35 @@ def run(ck):
               sig=lambda c, e, o: "serve-" + ("misroute" if (e or "").split(" ")[0] != (o or "").split(" ")[0] else "replay"),
               sample=3, timeout=1500)
 
+    # ---- 3b. read errors at every position of the sniff phase, followed by more data
+    cases = []
+    lines = ["GET /", "PLAY ", "OPTIONS * RTSP", "GET / HTTP/1.1\r\nHost: x\r\n\r\nbody",
+             "DESCRIBE rtsp://h/live/1 RTSP/1.0\r\nCSeq: 1\r\n\r\n", "OPTIONS * RTSP/1.0\r\nCSeq: 1\r\n\r\n",
+             "POST /api HTTP/1.1\r\nContent-Length: 3\r\n\r\nabc", "SET_PARAMETER rtsp://h/x RTSP/1.0\r\n\r\n"]
+    for line in (lines if T else rng.sample(lines, 5) + lines[:3]):
+        full = line.encode() + (b" and more bytes that arrive late\r\n\r\n" if len(line) < 16 else b"")
+        for k in range(0, min(len(full), 18)):
+            for kind in ([TIMEOUT, OTHER, EOF] if T else [TIMEOUT, rng.choice([OTHER, EOF, TIMEOUT])]):
+                sc = []
+                if k:
+                    sc.append([full[:k], 0])
+                sc.append([b"", kind])                                  # an error with no bytes while sniffing
+                if rng.random() < 0.3:
+                    sc.append([b"", kind])                              # ... a deadline that keeps firing
+                rest = full[k:]
+                j = rng.randint(1, max(1, min(len(rest), 12)))
+                sc.append([rest[:j], 0])
+                if rest[j:]:
+                    sc.append([rest[j:], rng.choice([0, 0, 0, EOF])])   # now and then the last bytes come with EOF
+                svc = [rng.choice([1, 2, 3, 5]) for _ in range(len(full))] + [4096, 4096, 4096]
+                cases.append([0, sc, svc])
+            if k and rng.random() < 0.5:                                 # an error together with bytes, then more data
+                sc = [[full[:k], rng.choice([OTHER, TIMEOUT])], [full[k:], 0]]
+                cases.append([0, sc, [rng.choice([1, 2, 7]) for _ in range(len(full))] + [4096, 4096]])
+    ck.stream("sniff_errors", cases, "C19_serve_run", "C19_serve", "C19_serve_ok",
+              nontrivial=lambda c: any(x[1] for x in c[1]) and len(stream_of(c[1])) >= 4,
+              sig=lambda c, e, o: "sniff-error-replayed", sample=2, timeout=1500)
+
     # ---- 4. real loopback connections through listener.New / Serve with stub services
     cases = []
     for i in range(800 if T else 44):
@@ -360,6 +389,11 @@ def run(ck):
             fill = 0
         splits = [rng.choice([1, 3, 7, 8, 16])] * rng.randint(0, 3)
         cases.append([-1, head, fill, rng.randrange(1 << 30), splits, rng.choice([0, 300]), rng.choice([7, 512, 4096]), rng.random() < 0.5])
+    # a slow client: a matching prefix shorter than the matcher depth, the sniff time-out (120 ms) fires,
+    # the rest arrives later — routed on the prefix, and the service must still get every byte
+    for m, k in (("GET / HTTP/1.0\r\nHost: x\r\n\r\n", 5), ("PLAY rtsp://h/live/1 RTSP/1.0\r\nCSeq: 2\r\n\r\n", 5),
+                 ("OPTIONS * RTSP/1.0\r\nCSeq: 1\r\n\r\n", 14)):
+        cases.append([120, m.encode(), 0, 0, [k], 300000, rng.choice([2, 64, 4096]), False])
     # a silent connection that sent nothing must be closed at the sniff timeout
     cases.append([120, b"", 0, 0, [], 0, 16, True])
     cases.append([120, b"GET /\r\n", 0, 0, [], 0, 16, True])
@@ -488,8 +522,12 @@ def run(ck):
              "items; 0-4 matcher sessions of arbitrary read sizes; service read sizes from {0..4096}; non-trivial = >= 1 session, >= 2 segments, "
              ">= 2 service reads. (3) Listener.serve with rtsp.MatchRTSP()/listener.MatchHTTP() registered as in service.listen (and random "
              "tables) on scripted conns, each first line under several segmentations; non-trivial = >= 2 segments and >= 8 bytes. "
+             "(3b) for request lines and for matching prefixes shorter than the matcher depth ('GET /', 'PLAY ', 'OPTIONS * RTSP'): a read error with "
+             "no bytes (timeout, other, EOF; sometimes repeated) at every position 0..17 of the sniff phase followed by more data, and errors "
+             "together with bytes followed by more data; service reads of 1-5 bytes: the replayed reads must carry no error but the one that came "
+             "with the last sniffed byte. "
              "(4) real loopback connections through listener.New/ServeAsync/Serve with stub services, client write splits with gaps, "
-             "half-close or silence (sniff timeout 120 ms), payloads to 150 KB (1 MiB thorough); plus well-formed RTSP/HTTP requests and "
+             "half-close or silence (sniff timeout 120 ms), slow clients whose second write comes after the sniff time-out, payloads to 150 KB (1 MiB thorough); plus well-formed RTSP/HTTP requests and "
              "non-protocol openings through the production service.listen (tcp.Server / http.Server behind it). "
              "(5) 2-4 connections in the sniff phase at once: request lines split at 1-3 positions inside the first 16 bytes, fragments of the "
              "connections released in a deterministic interleaving (A's first fragment, complete lines of the others, A's rest; round robin; random) "
